@@ -160,8 +160,11 @@ def nnx_part(chk):
     pass
 
   types = {'V': nnx.Variable, 'P': nnx.Param, 'P2': P2, 'Q': Q, 'VS': nnx.VariableState}
-  items = {1: (('a', 'x'), 'P', ''), 2: (('a', 'y'), 'P2', 't1'), 3: (('b', 'x'), 'Q', ''),
-           4: (('b', 'y'), 'Q', 't1'), 5: (('c',), 'P', 't1'), 6: (('a', 'b', 'z'), 'V', ''), 7: (('r',), 'raw', '')}
+  # real key names: some are substrings of others (a path predicate compares whole keys, not text)
+  R = {'a': 'a', 'b': 'ba', 'x': 'x', 'y': 'xy', 'c': 'c', 'z': 'z', 'r': 'r'}
+  rp = lambda path: tuple(R.get(k, k) for k in path)
+  items = {1: (rp(('a', 'x')), 'P', ''), 2: (rp(('a', 'y')), 'P2', 't1'), 3: (rp(('b', 'x')), 'Q', ''),
+           4: (rp(('b', 'y')), 'Q', 't1'), 5: (rp(('c',)), 'P', 't1'), 6: (rp(('a', 'b', 'z')), 'V', ''), 7: (rp(('r',)), 'raw', '')}
 
   def mkvar(i):
     path, t, tag = items[i]
@@ -172,8 +175,8 @@ def nnx_part(chk):
     k = t['k']
     if k == 'type': return types[t['t']]
     if k == 'tag': return t['s']
-    if k == 'pc': return nnx.PathContains(t['key'])
-    if k == 'pin': return nnx.filterlib.PathIn(*[tuple(p) for p in t['ps']])
+    if k == 'pc': return nnx.PathContains(R.get(t['key'], t['key']))
+    if k == 'pin': return nnx.filterlib.PathIn(*[rp(p) for p in t['ps']])
     if k == 'lit': return {'true': True, 'false': False, 'ellipsis': ..., 'none': None}[t['v']]
     if k == 'ev': return nnx.Everything()
     if k == 'no': return nnx.Nothing()
@@ -192,8 +195,8 @@ def nnx_part(chk):
   class Node(nnx.Module):
     pass
   root = Node()
-  root.a = Node(); root.b = Node(); root.a.b = Node()
-  root.a.x, root.a.y, root.b.x, root.b.y, root.c, root.a.b.z = (mkvar(i) for i in (1, 2, 3, 4, 5, 6))
+  root.a = Node(); root.ba = Node(); root.a.ba = Node()
+  root.a.x, root.a.xy, root.ba.x, root.ba.xy, root.c, root.a.ba.z = (mkvar(i) for i in (1, 2, 3, 4, 5, 6))
 
   def ids_of(st):
     return sorted(path_id[p] for p, _ in nnx.to_flat_state(st) if True) if not isinstance(st, dict) else None
